@@ -6,12 +6,12 @@ import re
 from harness import core, docgen, inputs, trees
 
 GEN = ['gen_tables']
-THEOREMS = ['C10_tree_reflow', 'C10_tree_reflow_pieces', 'C10_tree_reflow_instance', 'C10_plain_words_reflow', 'C10_plain_words_instance', 'C10_bound', 'C10_words_preserved', 'C10_fill_determined_by_words', 'C10_not_rebroken', 'C10_quote_budget',
+THEOREMS = ['C10_tree_long_lines', 'C10_tree_long_lines_instance', 'C10_tree_reflow', 'C10_tree_reflow_pieces', 'C10_tree_reflow_instance', 'C10_plain_words_reflow', 'C10_plain_words_instance', 'C10_bound', 'C10_words_preserved', 'C10_fill_determined_by_words', 'C10_not_rebroken', 'C10_quote_budget',
             'C10_list_item_budget']
 TRUSTED = ['Model/MarkdownRenderer.v: hand-written model of markdown_renderer.py (fragments, make_words, fragments_to_lines, prefix_lines, '
            'block rendering, tables); the whitespace table (\\s / str.isspace) is regenerated from the interpreter every run',
            'the document generator harness/docgen.py and the HTML whitespace normaliser (oracle side)']
-ASSUMPTIONS = ['clauses 1 (same meaning after reflow) and 4 (reflowing again changes nothing) are PROVED for every limit on paragraphs of plain words at every nesting '
+ASSUMPTIONS = ['clauses 1 (same meaning after reflow), 3 (a line longer than the limit is its container prefix and one word: C10_tree_long_lines) and 4 (reflowing again changes nothing) are PROVED for every limit on paragraphs of plain words at every nesting '
                'depth of block quotes and lists, with fenced code, ATX headings and thematic breaks between them (C10_tree_reflow, C10_plain_words_reflow; the class is '
                'also run on the implementation and, tree by tree, inside the proof assistant: word_trees, plain_word_paragraphs); for other documents (inline markup, '
                'setext headings, tables, HTML) they are decided by the oracle on the implementation only (PARTIAL)',
